@@ -83,20 +83,31 @@ Section Proofs.
   Qed.
 
   Lemma gcxs_ctor_loadpath sh ca d ind ptr f :
-    2 <=? len sh = true -> axes_ok (len sh) ca = true ->
+    2 <=? len sh = true -> axes_ok (len sh) ca = true -> len ptr =? compressed_rows sh ca + 1 = true ->
     gcxs_ctor V sh (Some ca) d ind ptr f = Ok (mkGCXS sh (Some ca) d ind ptr f).
   Proof.
-    intros Hnd H. unfold axes_ok in H.
+    intros Hnd H Hptr. unfold axes_ok in H.
     apply andb_prop in H as [H H4]. apply andb_prop in H as [H H3]. apply andb_prop in H as [H1 H2].
     unfold gcxs_ctor, check_compressed_axes.
     apply negb_true_iff in H1. rewrite H1, H2, H3, H4. cbn [negb bind].
-    destruct (Z.eqb_spec (len sh) 1) as [E | _]; [| reflexivity].
-    apply Z.leb_le in Hnd. lia.
+    destruct (Z.eqb_spec (len sh) 1) as [E | _]; [apply Z.leb_le in Hnd; lia |].
+    now rewrite Hptr.
   Qed.
 
   Lemma gcxs_ctor_noaxes sh d ind ptr f :
     gcxs_ctor V sh None d ind ptr f = Ok (mkGCXS sh None d ind ptr f).
   Proof. unfold gcxs_ctor. cbn [bind]. now destruct (len sh =? 1). Qed.
+
+  (* an index pointer of the wrong length is rejected by the constructor *)
+  Lemma gcxs_ctor_bad_indptr sh ca d ind ptr f :
+    2 <=? len sh = true -> len ptr =? compressed_rows sh ca + 1 = false ->
+    exists e, gcxs_ctor V sh (Some ca) d ind ptr f = Raise e.
+  Proof.
+    intros Hnd Hptr. unfold gcxs_ctor.
+    destruct (check_compressed_axes (len sh) ca) as [[] | e]; cbn [bind]; [| eauto].
+    destruct (Z.eqb_spec (len sh) 1) as [E | _]; [apply Z.leb_le in Hnd; lia |].
+    rewrite Hptr. cbn. eauto.
+  Qed.
 
   (* ------------------------------------------------------------------ npz round trip *)
   Lemma gcxs_wf_class k (g : gcxs V) : gcxs_wf V k g = true -> k <> KCOO.
@@ -112,12 +123,30 @@ Section Proofs.
       rewrite (save_gcxs k g Hk). cbn [bind].
       destruct g as [sh ax d ind ptr f]. cbn [g_shape g_axes g_data g_indices g_indptr g_fill] in *.
       destruct ax as [ca |]; cbn [axes_member].
-      + unfold gcxs_wf in Hwf. cbn [g_axes g_shape] in Hwf. apply andb_prop in Hwf as [Hwf _].
-        apply andb_prop in Hwf as [Hnd Hax].
+      + unfold gcxs_wf in Hwf. cbn [g_axes g_shape g_indptr] in Hwf. apply andb_prop in Hwf as [Hwf _].
+        apply andb_prop in Hwf as [Hwf Hptr]. apply andb_prop in Hwf as [Hnd Hax].
         destruct ca as [| a ca].
         * exfalso. unfold axes_ok in Hax. cbn in Hax. rewrite !andb_false_r in Hax. discriminate.
-        * rewrite load_gcxs_members, (gcxs_ctor_loadpath _ _ _ _ _ _ Hnd Hax). reflexivity.
+        * rewrite load_gcxs_members, (gcxs_ctor_loadpath _ _ _ _ _ _ Hnd Hax Hptr). reflexivity.
       + rewrite load_gcxs_members_noaxes, gcxs_ctor_noaxes. reflexivity.
+  Qed.
+
+  (* an archive of an n-d GCXS-family array in which the index pointer has another length than the number of compressed
+     rows + 1 is rejected (by the constructor's check) *)
+  Lemma npz_bad_indptr_rejected_proof (k : klass) (g : gcxs V) (ca ptr' : list Z) :
+    gcxs_wf V k g = true -> g_axes g = Some ca ->
+    len ptr' =? compressed_rows (g_shape g) ca + 1 = false ->
+    exists e,
+      load_members V [(s_data, FData (g_data g)); (s_shape, FInts (g_shape g)); (s_fill, FScalar (g_fill g));
+                      (s_indices, FInts (g_indices g)); (s_indptr, FInts ptr'); (s_axes, FInts ca)] = Raise e.
+  Proof.
+    intros Hwf Eax Hptr. unfold gcxs_wf in Hwf. rewrite Eax in Hwf. apply andb_prop in Hwf as [Hwf _].
+    apply andb_prop in Hwf as [Hwf _]. apply andb_prop in Hwf as [Hnd Hax].
+    destruct ca as [| a ca].
+    - exfalso. unfold axes_ok in Hax. cbn in Hax. rewrite !andb_false_r in Hax. discriminate.
+    - rewrite load_gcxs_members.
+      destruct (gcxs_ctor_bad_indptr (g_shape g) (a :: ca) (g_data g) (g_indices g) ptr' (g_fill g) Hnd Hptr) as [e E].
+      rewrite E. cbn. eauto.
   Qed.
 
   (* exact classes come back as themselves *)
